@@ -2,26 +2,89 @@ import FmpRpc.Proofs.TransportInv
 import FmpRpc.Proofs.TransportInvA5
 /-
   C20 — each RPC is accounted exactly once (record counts; the size formula is
-  checked by the correspondence run against the write log).  Hypothesis of the
-  code, stated in DESIGN: compressing the argument / result succeeds (the
-  early return on a compression error precedes the deferred record).
+  checked by the correspondence run against the write log).
+
+  Argument side: NO hypothesis any more.  `dispatch.Call` returns early when
+  `compressData` fails on the argument of a compressed call, and that return
+  precedes the `defer record.RecordAndFinish`: the model has this path
+  (`Act.cCompressFail`, ghost `Caller.cfail`), such a call ends with NO record
+  (`compress_failure_leaves_no_record`) and `one_record_per_call` says
+  "exactly one record unless the call ended in compressData".
+
+  Result side: still an explicit hypothesis of the code, stated in DESIGN:
+  compressing the RESULT succeeds.  `callCompressedRequest.Reply` returns
+  before the deferred record when the result cannot be compressed; the model's
+  handler always goes through `hFin`, so `one_record_per_served_call` is a
+  statement about replies whose result compresses.
 -/
 namespace FmpRpc.C20
 open FmpRpc.T
 
 /-- a call that went into `dispatch.Call` has exactly one record once it has
     returned — however it ended (reply, application error, cancellation,
-    transport failure, oversize) — and never more than one -/
+    transport failure, oversize) — and never more than one; the single
+    exception is a call that ended in `compressData` (`cfail`), which returns
+    before the record is deferred and has none -/
 theorem one_record_per_call (s : St) (hr : Reachable s) (c : Nat) :
     (s.callers c).records ≤ 1 ∧
-    (∀ o, (s.callers c).pc = .ret o → (s.callers c).seq ≠ -1 → (s.callers c).records = 1) ∧
+    (∀ o, (s.callers c).pc = .ret o → (s.callers c).seq ≠ -1 →
+      (s.callers c).records = if (s.callers c).cfail then 0 else 1) ∧
     (∀ o, (s.callers c).pc = .ret o → (s.callers c).seq = -1 → (s.callers c).records = 0) := by
   have h := (CInv_reach s hr).loc c
   have h0 := h.rec0; have h1 := h.rec1; have hr := h.recr
   refine ⟨?_, ?_, ?_⟩
-  · cases hpc : (s.callers c).pc <;> simp [hpc] at h0 h1 hr <;> omega
+  · cases hpc : (s.callers c).pc <;> simp [hpc] at h0 h1 hr <;> (try split at h1) <;> (try split at hr) <;> omega
+  · intro o hpc hq; simp [hpc] at hr; rcases hr with ⟨h, -⟩ | ⟨-, h⟩
+    · exact absurd h hq
+    · exact h
   · intro o hpc hq; simp [hpc] at hr; omega
-  · intro o hpc hq; simp [hpc] at hr; omega
+
+/-- the ghost flag `cfail` is set only by `cCompressFail` — the early return of
+    `dispatch.Call` on a `compressData` error: such a call never had a frame
+    (nothing went through the hand-off) and, because the return precedes the
+    deferred `RecordAndFinish`, it leaves NO record — neither while the deferred
+    `RemoveCall` is still to run nor after the call has returned -/
+theorem compress_failure_leaves_no_record (s : St) (hr : Reachable s) (c : Nat)
+    (hf : (s.callers c).cfail = true) :
+    (s.callers c).sent = false ∧ (s.callers c).records = 0 := by
+  have h := ((CInv_reach s hr).loc c).cfl hf
+  exact ⟨h.1, h.2.1⟩
+
+/-- … and it is on its way out with the compression error, with only the
+    deferred `RemoveCall` between it and the return -/
+theorem compress_failure_outcome (s : St) (hr : Reachable s) (c : Nat)
+    (hf : (s.callers c).cfail = true) :
+    (s.callers c).pc = .rm (.err .toobig) ∨ (s.callers c).pc = .ret (.err .toobig) := by
+  have h := ((CInv_reach s hr).loc c).cfl hf
+  obtain ⟨-, -, ho, hp⟩ := h
+  cases hpc : (s.callers c).pc <;> simp [hpc] at ho hp
+  · left; rw [ho]
+  · right; rw [ho]
+
+/-- the flag is raised by exactly that step: `cCompressFail` sets it, allocates
+    no send, logs nothing and leaves every other caller alone -/
+theorem compress_failure_step (s s' : St) (c : Nat) (hs : step s (.cCompressFail c) = some s') :
+    (s.callers c).pc = .enc ∧ (s'.callers c).cfail = true ∧ (s'.callers c).pc = .rm (.err .toobig) ∧
+    (s'.callers c).records = (s.callers c).records ∧
+    s'.sends = s.sends ∧ s'.nextSend = s.nextSend ∧ s'.hist = s.hist ∧ s'.pending = s.pending ∧
+    s'.w = s.w ∧ s'.wlog = s.wlog ∧ (∀ c', c' ≠ c → s'.callers c' = s.callers c') := by
+  simp only [step] at hs
+  split at hs
+  · rename_i hpc
+    injection hs with hs; subst hs
+    simp [hpc]
+    intro c' hc'; simp [hc']
+  · simp at hs
+
+set_option maxHeartbeats 1000000 in
+/-- … and by no other step: whatever the user, the peer and the scheduler do,
+    the only action that turns a caller's `cfail` from false to true is that
+    caller's own `cCompressFail` -/
+theorem cfail_set_only_by_compress_failure (s s' : St) (a : Act) (c : Nat) (hs : step s a = some s')
+    (h0 : (s.callers c).cfail = false) (h1 : (s'.callers c).cfail = true) : a = .cCompressFail c := by
+  step_cases a hs
+  all_goals (try simp at h1)
+  all_goals (first | done | (exfalso; grind) | grind)
 
 /-- one record per cancellation sent: as many cancel records as invocations of
     `handleCancel`, once the caller is past it -/
